@@ -2,5 +2,6 @@ SPECIFICATION Spec
 CONSTANTS Conns = {c1}  Burst = 1  R = 1  Chunk = 1  Horizon = 0  PerConn = FALSE  NoWait = FALSE
   MaxWait = 0
   Batch = 0
+  PostPaid = FALSE
   BigUncharged = FALSE
 CHECK_DEADLOCK FALSE
